@@ -73,6 +73,7 @@ type uxfEntry struct {
 	kind, h  int // arrive / release: gate
 	res      string
 	best     int
+	fp       int    // release of a filter gate: 1 = match only through the injected false positive
 	req      int    // enq: index into env.reqs
 	answered []bool // arrive / idle
 }
@@ -220,9 +221,13 @@ func (e *uxfEnv) arrive(kind, h int) (fail bool) {
 }
 
 func (e *uxfEnv) release(kind, h int, res string) int {
+	return e.releaseFp(kind, h, res, 0)
+}
+
+func (e *uxfEnv) releaseFp(kind, h int, res string, fp int) int {
 	e.lmu.Lock()
 	b := e.best
-	e.log = append(e.log, uxfEntry{typ: uxfRelease, kind: kind, h: h, res: res, best: b})
+	e.log = append(e.log, uxfEntry{typ: uxfRelease, kind: kind, h: h, res: res, best: b, fp: fp})
 	e.lmu.Unlock()
 	return b
 }
@@ -276,7 +281,7 @@ func (e *uxfEnv) filterMatches(ro *rescanOptions, hash *chainhash.Hash) (bool, e
 			defer e.lmu.Unlock()
 			var w [][]byte
 			for _, r := range e.reqs {
-				w = append(w, uxScript(r.tx, r.idx))
+				w = append(w, e.cd.scriptOf(r.tx, r.idx))
 			}
 			return w
 		}}
@@ -287,7 +292,17 @@ func (e *uxfEnv) filterMatches(ro *rescanOptions, hash *chainhash.Hash) (bool, e
 	case rel.stale:
 		e.release(uxFilter, h, "stale")
 	case m:
-		e.release(uxFilter, h, "match")
+		// a false positive (act.b = 1) if the filter served was the padded one
+		// and the block's true filter does not match the watch list the code
+		// handed in
+		fp := 0
+		if rel.match {
+			tm, terr := matchBlockFilter(ro, e.cd.filters[h], hash)
+			if terr != nil || !tm {
+				fp = 1
+			}
+		}
+		e.releaseFp(uxFilter, h, "match", fp)
 	default:
 		e.release(uxFilter, h, "nomatch")
 	}
@@ -399,8 +414,11 @@ func (e *uxfEnv) linearise(cid, best0 int, final [][]int) (uxObs, []uxStepOut) {
 			} else {
 				a.Op = uxPcOp[x.kind]
 				switch x.kind {
-				case uxHash, uxFilter, uxBlock:
+				case uxHash, uxBlock:
 					a.A = x.h
+				case uxFilter:
+					a.A = x.h
+					a.B = x.fp
 				case uxBest0:
 					a.B = x.best
 				case uxTail:
